@@ -158,6 +158,8 @@ inductive Act where
   | poll (t id : Nat)
   /-- the consumer releases the payload handle of `ev` it received (ogre_arc) -/
   | release (ev : Nat)
+  /-- `cancel_stream(id)`: the listener is told to end (`keep_streams_running[id] = false`; its wake-up is model M8's) -/
+  | cancel (id : Nat)
   | step (t : Nat)
   | ack (t : Nat)
   deriving DecidableEq, Repr
@@ -181,6 +183,7 @@ def apply (s : St) : Act → St
       else s
   | .poll t id => if s.thr t = .idle then setThr s t (.pPoll id) else s
   | .release ev => { s with refs := fun e => if e = ev then s.refs e - 1 else s.refs e }
+  | .cancel id => { s with keep := fun j => if j = id then false else s.keep j }
   | .step t => step s t
   | .ack t => match s.thr t with
               | .done _ => setThr s t .idle
